@@ -2395,10 +2395,12 @@ class op(object):
             len(equalities) <= 1:
             v = variables[0]
 
-            if lin_ineqs: G = lin_ineqs[0]._f._linear._coeff[v]
+            # a constraint without variables (e.g. 0*x + 1 <= 2) has no 
+            # coefficient for v; such problems take the general conversion
+            if lin_ineqs: G = lin_ineqs[0]._f._linear._coeff.get(v, 0)
             else: G = None
 
-            if equalities: A = equalities[0]._f._linear._coeff[v]
+            if equalities: A = equalities[0]._f._linear._coeff.get(v, 0)
             else: A = None
 
             if (format == 'dense' and (G is None or _isdmatrix(G)) and 
